@@ -175,6 +175,7 @@ def run_coop(seed, profile, backend, tid, hook=None):
                 pages = [x for gg in descr if gg["kind"] == "crawl" for s, tg in gg["data"] for x in [s] + tg]
                 if not d.family_ok(pages):
                     descr = [x for x in descr if x["kind"] != "crawl"]
+            we0 = [{"l": l, "id": w} for l, w in obs["we"]]
             pages0 = [{"l": l, "cr": c} for l, c in obs["pages"]]
             outs0 = [{"s": s, "t": t, "w": w} for s, t, w in obs["outs"]]
             begin = {"op": "CoopBegin", "gens": [dict(g) for g in descr]}
@@ -221,8 +222,9 @@ def run_coop(seed, profile, backend, tid, hook=None):
                 last = not live
                 fin = {"last": last}
                 if last:
-                    fin.update({"pages0": pages0, "outs0": outs0, "gens": [dict(g) for g in descr],
-                                "bounds": [{"g": jj + 1, "exc": "" if jj in results else "no result",
+                    fin.update({"pages0": pages0, "outs0": outs0, "we0": we0, "gens": [dict(g) for g in descr],
+                                "bounds": [{"g": jj + 1, "qkind": descr[jj]["kind"],
+                                            "exc": "" if jj in results else "no result",
                                             "result": results.get(jj, []), "moments": moments[jj]}
                                            for jj in sorted(moments)]})
                 obs = snap(op, res, {"final": fin})
@@ -236,3 +238,85 @@ def run_coop(seed, profile, backend, tid, hook=None):
     tsteps, abort = concrete_steps_to_trace(steps)
     return {"id": tid, "backend": backend, "def": default0, "rules": rules0, "steps": tsteps, "abort": abort,
             "src": "coop", "ops": ops}
+
+
+def replay_coop(backend, default, rules, ops, tid=0):
+    """Re-execute a recorded coop trace: same requests, same generators, same schedule."""
+    del impl.WRITE_LOG[:]
+    ix = impl.Index(backend, default, rules)
+    steps = []
+
+    def snap(op, res, q=None):
+        w = list(impl.WRITE_LOG)
+        raw_t, raw_l = ix.raw()
+        del impl.WRITE_LOG[:]
+        obs = impl.observe(ix)
+        st = {"op": op, "res": res, "w": w, "rawT": raw_t, "rawL": raw_l, "obs": obs}
+        if q is not None:
+            st["q"] = q
+        steps.append(st)
+        return obs
+    try:
+        with always_yield():
+            obs = snap("Init", None)
+            steps[0].pop("res")
+            gens, descr, moments, results, live = [], [], {}, {}, []
+            pages0 = outs0 = we0 = None
+            n_next = sum(1 for o in ops if o["op"] == "CoopNext")
+            seen_next = 0
+            for op in ops:
+                del impl.WRITE_LOG[:]
+                if op["op"] == "CoopBegin":
+                    descr = [dict(g) for g in op["gens"]]
+                    for g in descr:
+                        if g["kind"] == "crawl":
+                            g["data"] = [(s, list(t)) for s, t in g["data"]]
+                    we0 = [{"l": l, "id": w} for l, w in obs["we"]]
+                    pages0 = [{"l": l, "cr": c} for l, c in obs["pages"]]
+                    outs0 = [{"s": s, "t": t, "w": w} for s, t, w in obs["outs"]]
+                    gens = [start_gen(ix.t, g) for g in descr]
+                    moments = {j: [moment(ix.t, g)] for j, g in enumerate(descr) if g["kind"].startswith("q")}
+                    obs = snap({"op": "CoopBegin", "gens": [dict(g) for g in descr]},
+                               {"exc": "", "pages": 0, "created": [], "ret": None})
+                elif op["op"] == "CoopNext":
+                    seen_next += 1
+                    j = op["g"] - 1
+                    o2 = {"op": "CoopNext", "g": j + 1, "done": False, "result": []}
+                    res = {"exc": "", "pages": 0, "created": [], "ret": None}
+                    try:
+                        with warnings.catch_warnings(), impl.time_limit():
+                            warnings.simplefilter("ignore")
+                            state = next(gens[j])
+                        if state.done:
+                            o2["done"] = True
+                            if descr[j]["kind"] in ("crawl", "rule"):
+                                res.update(impl.report_dict(state.result))
+                            else:
+                                results[j] = result_items(descr[j], state.result)
+                                if descr[j]["kind"] in ("qpages", "qcrawled"):
+                                    o2["result"] = list(results[j])
+                    except StopIteration:
+                        o2["done"] = True
+                    except Exception as e:
+                        res["exc"] = impl.exc_name(e)
+                        o2["done"] = True
+                    for jj in moments:
+                        if jj not in results or jj == j:
+                            moments[jj].append(moment(ix.t, descr[jj]))
+                    last = seen_next == n_next
+                    fin = {"last": last}
+                    if last:
+                        fin.update({"pages0": pages0, "outs0": outs0, "we0": we0, "gens": [dict(g) for g in descr],
+                                    "bounds": [{"g": jj + 1, "qkind": descr[jj]["kind"],
+                                                "exc": "" if jj in results else "no result",
+                                                "result": results.get(jj, []), "moments": moments[jj]}
+                                               for jj in sorted(moments)]})
+                    obs = snap(o2, res, {"final": fin})
+                else:
+                    res = impl.apply_op(ix, op)
+                    obs = snap(op, res)
+    finally:
+        ix.destroy()
+    tsteps, abort = concrete_steps_to_trace(steps)
+    return {"id": tid, "backend": backend, "def": default, "rules": rules, "steps": tsteps, "abort": abort,
+            "src": "coop-replay", "ops": list(ops)}
